@@ -141,12 +141,23 @@ def run_tie(chk, names, n_cases: int | None = None) -> dict:
     todo = [n for n in names if res[n]["regen"]]
     cases = {}
     if todo:
-        rc, out, err = chk.impl("tie_gen.py", input=json.dumps({"seed": chk.seed * 31 + 7, "n": n_cases, "names": todo}), timeout=600)
-        if rc != 0:
-            chk.broken.append({"kind": "harness", "what": "tie_gen failed (the real functions could not be run on generated arguments)",
-                               "tie": todo, "stderr": err[-2000:]})
-        else:
-            cases = json.loads(out)
+        # one process per target: a generator may change process-wide state of the library under test (the capacity hook,
+        # caches) and must not influence the next target's expectations
+        from concurrent.futures import ThreadPoolExecutor as _TPE
+
+        def gen_one(n):
+            return n, chk.impl("tie_gen.py", input=json.dumps({"seed": chk.seed * 31 + 7, "n": n_cases, "names": [n]}), timeout=600)
+
+        with _TPE(max_workers=4) as ex:
+            for n, (rc, out, err) in ex.map(gen_one, todo):
+                if rc != 0:
+                    chk.broken.append({"kind": "harness", "what": "tie_gen failed (the real functions could not be run on generated arguments)",
+                                       "tie": [n], "stderr": err[-2000:]})
+                else:
+                    try:
+                        cases.update(json.loads(out))
+                    except ValueError:
+                        chk.broken.append({"kind": "harness", "what": "tie_gen printed no JSON", "tie": [n], "stdout_tail": out[-500:]})
     from concurrent.futures import ThreadPoolExecutor
 
     def evaluate(n):
